@@ -354,6 +354,13 @@ structure RCfg where
       (`janet_checktype(check, JANET_NIL)`); a known object => the in-transit reference is dropped.  (A test on the entry's
       value is wrong: entries hold `false` between mark phases.) -/
   recvKnownDecref : Bool
+  /-- janet_chan_deinit (finalizer of a thread channel): every UNDELIVERED item is handed to `janet_chan_unpack(.., is_cleanup=1)`,
+      i.e. unmarshalled with JANET_MARSHAL_DECREF, whose LB_THREADED_ABSTRACT case gives the in-transit reference back
+      (`janet_abstract_decref(u.ptr)`) without creating a table entry.  (`false`: the packed buffer is merely freed.) -/
+  deinitDecref : Bool := true
+  /-- ... and when that decrement brings the count to 0 the object is finalized and freed on the spot (it is in no thread's
+      table any more: no collector would ever visit it again) -/
+  decrefFreesAtZero : Bool := true
   deriving Repr, DecidableEq
 
 structure RSt where
@@ -376,6 +383,9 @@ inductive RAct
   /-- thread t, which reaches the object, uses its memory: ev/acquire-lock, ev/release-lock, ev/acquire-rlock .. on a lock
       (janet_os_mutex_lock on the OS primitive INSIDE the abstract), any channel operation on a thread channel -/
   | use (t : Nat)
+  /-- the finalizer of a thread channel that still holds an undelivered message with a copy of the pointer runs (in whatever
+      thread swept the carrier, or at its thread's exit): `janet_chan_deinit` → `janet_chan_unpack(.., 1)` → DECREF unmarshal -/
+  | discard
   deriving DecidableEq, Repr
 
 def rstep (cfg : RCfg) (s : RSt) : RAct → RSt
@@ -395,6 +405,12 @@ def rstep (cfg : RCfg) (s : RSt) : RAct → RSt
                useAfterFree := s.useAfterFree || s.freed }
   | .drop t => { s with reach := fun u => if u = t then false else s.reach u }
   | .use t => if s.reach t = true then { s with useAfterFree := s.useAfterFree || s.freed } else s
+  | .discard =>
+    if s.transit = 0 then s
+    else if cfg.deinitDecref then
+      { s with transit := s.transit - 1, refcount := s.refcount - 1,
+               freed := s.freed || (cfg.decrefFreesAtZero && (s.refcount - 1 == 0)) }
+    else { s with transit := s.transit - 1 }
   | .sweep t =>
     if t ∈ s.holds ∧ s.reach t = false then
       { s with holds := s.holds.erase t, refcount := s.refcount - 1, freed := s.freed || (s.refcount - 1 == 0) }
